@@ -33,6 +33,7 @@ def main():
     ap.add_argument('--checks', default=None)
     ap.add_argument('--worktree', default=None)
     ap.add_argument('--skip-confirm', action='store_true')
+    ap.add_argument('--tag', default=None, help='name of the directory under seeded/ (default <PROP>_<k>)')
     a = ap.parse_args()
     wt = a.worktree or '/tmp/wt_%s' % a.prop
     out = os.path.join(wt, 'out')
@@ -93,7 +94,7 @@ def main():
         sh('git checkout -- .', cwd='/repo')
         shutil.rmtree(os.path.join(VERIF, 'replays'), ignore_errors=True)
     sh('git checkout -- evidence', cwd=VERIF)
-    dst = os.path.join(VERIF, 'seeded', '%s_%s' % (a.prop, a.k))
+    dst = os.path.join(VERIF, 'seeded', a.tag or '%s_%s' % (a.prop, a.k))
     os.makedirs(dst, exist_ok=True)
     shutil.copy(diff, os.path.join(dst, 'patch.diff'))
     text = open(demo).read().replace(wt, '/repo')
